@@ -24,7 +24,7 @@ fn setup(ctx: &mut Ctx) {
 }
 
 fn strata(t: Tier) -> Vec<Stratum> {
-    vec![st("generated-all-prefixes", scale(t, 320, 12_000, 1)), st("seed-boundary-prefixes", scale(t, 16, 200, 0))]
+    vec![st("generated-all-prefixes", scale(t, 6_400, 64_000, 1)), st("seed-boundary-prefixes", scale(t, 320, 3_200, 0))]
 }
 
 fn relation_ok(prefix: &Obs, full: &Obs) -> bool {
